@@ -14,12 +14,21 @@ type Locker interface {
 
 type Mutex struct {
 	locked bool
+	ep     uint32
+}
+
+// fresh resets a mutex that was last used in an earlier execution (a package-level variable).
+func (m *Mutex) fresh() {
+	if e := mc.Epoch(); m.ep != e {
+		m.ep, m.locked = e, false
+	}
 }
 
 func (m *Mutex) Lock() {
 	if mc.Killing() {
 		return
 	}
+	m.fresh()
 	mc.Point(&mc.Op{Kind: "mutex.Lock", Obj: m, Alts: func() int {
 		if m.locked {
 			return 0
@@ -32,6 +41,7 @@ func (m *Mutex) TryLock() bool {
 	if mc.Killing() {
 		return false
 	}
+	m.fresh()
 	ok := false
 	mc.Point(&mc.Op{Kind: "mutex.TryLock", Obj: m, Alts: func() int { return 1 }, Do: func(int) {
 		if !m.locked {
@@ -46,6 +56,7 @@ func (m *Mutex) Unlock() {
 	if mc.Killing() {
 		return
 	}
+	m.fresh()
 	mc.Point(&mc.Op{Kind: "mutex.Unlock", Obj: m, Alts: func() int { return 1 }, Do: func(int) {
 		if !m.locked {
 			panic("sync: unlock of unlocked mutex")
@@ -63,12 +74,20 @@ type RWMutex struct {
 	announced bool
 	readers   int
 	rsync     byte
+	ep        uint32
+}
+
+func (rw *RWMutex) fresh() {
+	if e := mc.Epoch(); rw.ep != e {
+		rw.ep, rw.wHeld, rw.announced, rw.readers = e, false, false, 0
+	}
 }
 
 func (rw *RWMutex) RLock() {
 	if mc.Killing() {
 		return
 	}
+	rw.fresh()
 	mc.Point(&mc.Op{Kind: "rw.RLock", Obj: rw, Alts: func() int {
 		if rw.announced {
 			return 0
@@ -81,6 +100,7 @@ func (rw *RWMutex) RUnlock() {
 	if mc.Killing() {
 		return
 	}
+	rw.fresh()
 	mc.Point(&mc.Op{Kind: "rw.RUnlock", Obj: rw, Alts: func() int { return 1 }, Do: func(int) {
 		if rw.readers <= 0 {
 			panic("sync: RUnlock of unlocked RWMutex")
@@ -94,6 +114,7 @@ func (rw *RWMutex) Lock() {
 	if mc.Killing() {
 		return
 	}
+	rw.fresh()
 	mc.Point(&mc.Op{Kind: "rw.Lock.announce", Obj: rw, Alts: func() int {
 		if rw.wHeld {
 			return 0
@@ -112,6 +133,7 @@ func (rw *RWMutex) TryLock() bool {
 	if mc.Killing() {
 		return false
 	}
+	rw.fresh()
 	ok := false
 	mc.Point(&mc.Op{Kind: "rw.TryLock", Obj: rw, Alts: func() int { return 1 }, Do: func(int) {
 		if !rw.wHeld && rw.readers == 0 {
@@ -127,6 +149,7 @@ func (rw *RWMutex) Unlock() {
 	if mc.Killing() {
 		return
 	}
+	rw.fresh()
 	mc.Point(&mc.Op{Kind: "rw.Unlock", Obj: rw, Alts: func() int { return 1 }, Do: func(int) {
 		if !rw.wHeld {
 			panic("sync: Unlock of unlocked RWMutex")
@@ -201,6 +224,13 @@ func (wg *WaitGroup) Wait() {
 type Pool struct {
 	New   func() any
 	items []any
+	ep    uint32
+}
+
+func (p *Pool) fresh() {
+	if e := mc.Epoch(); p.ep != e {
+		p.ep, p.items = e, nil
+	}
 }
 
 func (p *Pool) Get() any {
@@ -210,6 +240,7 @@ func (p *Pool) Get() any {
 		}
 		return nil
 	}
+	p.fresh()
 	var x any
 	got := false
 	// alternative 0 reuses the most recently Put item, alternative 1 (free) models the pool having dropped it
@@ -235,6 +266,7 @@ func (p *Pool) Put(x any) {
 	if mc.Killing() || x == nil {
 		return
 	}
+	p.fresh()
 	mc.Point(&mc.Op{Kind: "pool.Put", Obj: p, Alts: func() int { return 1 }, Do: func(int) {
 		mc.RaceRelease(unsafe.Pointer(p))
 		p.items = append(p.items, x)
